@@ -665,7 +665,7 @@ pub fn run_free<'a, R: Send + 'a>(threads: Vec<Vec<OpFn<'a, R>>>, hold_last: boo
             s.spawn(move || {
                 ready.fetch_add(1, Ordering::SeqCst);
                 while ready.load(Ordering::SeqCst) < nworkers {
-                    std::hint::spin_loop();
+                    crate::iohelp::spin_or_yield();
                 }
                 run_ops(t, ops);
             });
